@@ -9,6 +9,7 @@ import (
 	"encoding/binary"
 	"errors"
 	"io"
+	gonet "net"
 	"sync"
 	"time"
 )
@@ -38,10 +39,15 @@ type c11Stream struct {
 	rdEnter  int      // Read calls entered
 	rdReturn int      // Read calls returned
 	rdQ      [][]byte // fragments waiting for Read calls, one Read each
-	rdEOFQ   []bool   // fragment i is returned together with io.EOF
+	rdErrQ   []error  // fragment i is returned together with this error (nil: none)
 	left     []byte   // rest of a fragment larger than the caller's buffer
+	leftErr  error    // ... and the error that goes with its last byte
 	dead     bool     // connection lost
 	rdErr    error    // what Read returns once dead
+	rdOnce   bool     // ... the first time only; afterwards io.EOF
+	rdFired  int      // Reads that returned rdErr
+	wrErr    error    // what a Write returns once dead (nil: errC11Fault)
+	clErr    error    // what Read and Write return after Close (nil: errC11Closed)
 	half     bool     // writes are still accepted after dead until Close
 	closed   bool
 	closeN   int
@@ -91,29 +97,35 @@ func (s *c11Stream) Read(p []byte) (int, error) {
 		if len(s.left) > 0 {
 			n = copy(p, s.left)
 			s.left = s.left[n:]
+			if len(s.left) == 0 {
+				err, s.leftErr = s.leftErr, nil
+			}
 			got = true
 			return true
 		}
 		if len(s.rdQ) > 0 {
 			frag := s.rdQ[0]
-			eof := s.rdEOFQ[0]
-			s.rdQ, s.rdEOFQ = s.rdQ[1:], s.rdEOFQ[1:]
+			ferr := s.rdErrQ[0]
+			s.rdQ, s.rdErrQ = s.rdQ[1:], s.rdErrQ[1:]
 			n = copy(p, frag)
 			if n < len(frag) {
-				s.left = append([]byte(nil), frag[n:]...)
-			}
-			if eof && n == len(frag) {
-				err = io.EOF
+				s.left, s.leftErr = append([]byte(nil), frag[n:]...), ferr
+			} else {
+				err = ferr
 			}
 			got = true
 			return true
 		}
 		if s.closed {
-			err = errC11Closed
+			err = s.closedErr()
 			return true
 		}
 		if s.dead {
 			err = s.rdErr
+			if s.rdOnce && s.rdFired > 0 {
+				err = io.EOF
+			}
+			s.rdFired++
 			return true
 		}
 		return false
@@ -146,11 +158,14 @@ func (s *c11Stream) Write(p []byte) (int, error) {
 			return true
 		}
 		if s.closed {
-			w.n, w.err, w.freed = 0, errC11Closed, true
+			w.n, w.err, w.freed = 0, s.closedErr(), true
 			return true
 		}
 		if s.dead && !s.half {
 			w.n, w.err, w.freed = 0, errC11Fault, true
+			if s.wrErr != nil {
+				w.err = s.wrErr
+			}
 			return true
 		}
 		return false
@@ -192,9 +207,17 @@ func (s *c11Stream) Close() error {
 	s.closed = true
 	s.mu.Unlock()
 	if !first {
-		return errC11Closed
+		return s.closedErr()
 	}
 	return nil
+}
+
+// closedErr is evaluated under the mutex.
+func (s *c11Stream) closedErr() error {
+	if s.clErr != nil {
+		return s.clErr
+	}
+	return errC11Closed
 }
 
 // ---- driver side ----
@@ -223,11 +246,11 @@ func (s *c11Stream) releaseWrite(id uint32, typ uint8, n int, err error) bool {
 	return true
 }
 
-// feed queues one fragment for the next Read call.
-func (s *c11Stream) feed(frag []byte, eof bool) {
+// feed queues one fragment for the next Read call; with is returned together with its last byte.
+func (s *c11Stream) feed(frag []byte, with error) {
 	s.mu.Lock()
 	s.rdQ = append(s.rdQ, frag)
-	s.rdEOFQ = append(s.rdEOFQ, eof)
+	s.rdErrQ = append(s.rdErrQ, with)
 	s.mu.Unlock()
 }
 
@@ -251,3 +274,21 @@ func (s *c11Stream) kill(rdErr error, half bool) {
 	s.dead, s.rdErr, s.half = true, rdErr, half
 	s.mu.Unlock()
 }
+
+// killKind: the connection fails with the given kind of error (c11kinds.go): every Read from now
+// on (once: the first one only, io.EOF afterwards) and every Write report it.
+func (s *c11Stream) killKind(k c11ErrKind, once bool) {
+	s.mu.Lock()
+	s.dead, s.rdErr, s.rdOnce, s.wrErr, s.half = true, k.mk("read"), once, k.mk("write"), false
+	s.mu.Unlock()
+}
+
+// c11Conn presents the gated stream as a net.Conn (deadlines are accepted and ignored: nothing in
+// the client or the endpoint sets one).
+type c11Conn struct{ *c11Stream }
+
+func (c c11Conn) LocalAddr() gonet.Addr              { return c11Addr{} }
+func (c c11Conn) RemoteAddr() gonet.Addr             { return c11Addr{} }
+func (c c11Conn) SetDeadline(t time.Time) error      { return nil }
+func (c c11Conn) SetReadDeadline(t time.Time) error  { return nil }
+func (c c11Conn) SetWriteDeadline(t time.Time) error { return nil }
